@@ -663,7 +663,23 @@ type shapeArg struct {
 }
 
 var shapes = []string{"before_hook_repairs_value", "before_hook_spoils_value", "before_hook_replaces_pointer", "interface_typed_T_satisfied", "interface_typed_T_unmet", "own_Equal_method_hides_difference", "own_Equal_method_equal_values",
-	"map_typed_T_untouched_receiver", "map_typed_T_value", "map_typed_T_differs", "slice_typed_T_untouched_receiver", "slice_typed_T_differs"}
+	"map_typed_T_untouched_receiver", "map_typed_T_value", "map_typed_T_differs", "slice_typed_T_untouched_receiver", "slice_typed_T_differs",
+	"interface_typed_T_mixed_concrete_types_satisfied", "interface_typed_T_mixed_concrete_types_last_unmet", "binary_nil_data_reaches_unmarshaler_as_nil", "binary_empty_data_reaches_unmarshaler_as_empty"}
+
+// NB is a nullable blob: UnmarshalBinary(nil) means NULL, any non-nil data (also empty) is a present value.
+type NB struct {
+	Null bool
+	B    string
+}
+
+func (b *NB) UnmarshalBinary(d []byte) error {
+	if d == nil {
+		*b = NB{Null: true}
+	} else {
+		*b = NB{B: string(d)}
+	}
+	return nil
+}
 
 // probeShape: each shape is a one-case list whose verdict is known by construction.
 func probeShape(a shapeArg) (string, string) {
@@ -722,6 +738,34 @@ func probeShape(a shapeArg) (string, string) {
 				test.UnmarshalBinary(rec, []test.CaseBinary[encoding.BinaryUnmarshaler]{{Value: &P{Payload: rightPayload}, Data: []byte(in)}}, nil)
 			default:
 				test.UnmarshalJSON(rec, []test.CaseJSON[json.Unmarshaler]{{Value: &P{Payload: rightPayload}, Data: in}}, nil)
+			}
+		case "interface_typed_T_mixed_concrete_types_satisfied", "interface_typed_T_mixed_concrete_types_last_unmet":
+			// an interface-typed list whose cases hold different implementations: each case is unmarshalled into a fresh value of its own type
+			if m {
+				return nil
+			}
+			in := "right:" + rightPayload
+			last := &V{Payload: rightPayload}
+			if a.Shape == "interface_typed_T_mixed_concrete_types_last_unmet" {
+				last, mustFail = &V{Payload: rightPayload + "?"}, true
+			}
+			switch a.Helper {
+			case "UnmarshalText":
+				test.UnmarshalText(rec, []test.CaseText[encoding.TextUnmarshaler]{{Value: &P{Payload: rightPayload}, Data: in}, {Value: &V{Payload: rightPayload}, Data: in}, {Value: &P{Payload: rightPayload}, Data: in}, {Value: last, Data: in}}, nil)
+			case "UnmarshalBinary":
+				test.UnmarshalBinary(rec, []test.CaseBinary[encoding.BinaryUnmarshaler]{{Value: &P{Payload: rightPayload}, Data: []byte(in)}, {Value: &V{Payload: rightPayload}, Data: []byte(in)}, {Value: &P{Payload: rightPayload}, Data: []byte(in)}, {Value: last, Data: []byte(in)}}, nil)
+			default:
+				test.UnmarshalJSON(rec, []test.CaseJSON[json.Unmarshaler]{{Value: &P{Payload: rightPayload}, Data: in}, {Value: &V{Payload: rightPayload}, Data: in}, {Value: &P{Payload: rightPayload}, Data: in}, {Value: last, Data: in}}, nil)
+			}
+		case "binary_nil_data_reaches_unmarshaler_as_nil", "binary_empty_data_reaches_unmarshaler_as_empty":
+			// the case's Data is what the unmarshaler is given: a type that tells absent (nil) from empty data gets the one the case holds
+			if a.Helper != "UnmarshalBinary" {
+				return nil
+			}
+			if a.Shape == "binary_nil_data_reaches_unmarshaler_as_nil" {
+				test.UnmarshalBinary(rec, []test.CaseBinary[NB]{{Data: []byte("abc"), Value: NB{B: "abc"}}, {Data: nil, Value: NB{Null: true}}}, nil)
+			} else {
+				test.UnmarshalBinary(rec, []test.CaseBinary[NB]{{Data: nil, Value: NB{Null: true}}, {Data: []byte{}, Value: NB{}}}, nil)
 			}
 		case "own_Equal_method_hides_difference", "own_Equal_method_equal_values": // the unmarshalled value differs from the expected one in a field E.Equal ignores
 			if m {
@@ -800,7 +844,7 @@ func main() {
 		"non-trivial = list with at least one applicable case", func(r *mc.Run) {
 		p := mc.NewProbe(r, "case_list", nil, probe)
 		r.Assume("oracle: a case applicable to the direction is unmet iff a hook fails, or (no predicate) an error occurs or data/value differs, or (predicate) the predicate does not hold on the error or a result accompanies the expected error; a panic counts as an error whose text starts with 'panic: '; a list must be reported iff some case is unmet or the type lacks the interface")
-		r.Assume("don't-care: a type lacking the interface when no case is applicable to the direction; empty case lists on such a type; nil versus empty-but-non-nil []byte as expected binary data (never generated)")
+		r.Assume("don't-care: a type lacking the interface when no case is applicable to the direction; empty case lists on such a type; nil versus empty-but-non-nil []byte as expected binary data of the Marshal direction (never generated; in the Unmarshal direction the unmarshaler must be given the case's Data, nil as nil and empty as empty)")
 		// all single cases
 		var singles []caseSpec
 		for con := 0; con < 3; con++ {
